@@ -367,35 +367,40 @@ func (s *EtcdStore) UpdateTopicConfig(ctx context.Context, cfg *metadatapb.Topic
 
 // CreatePartitions expands a topic and writes new partition state entries.
 func (s *EtcdStore) CreatePartitions(ctx context.Context, topic string, partitionCount int32) error {
-	meta, err := s.metadata.Metadata(ctx, []string{topic})
+	// The new partitions are captured while persistMu is held: once it is
+	// released the snapshot watcher may replace the in-memory state.
+	var newPartitions []protocol.MetadataPartition
+	s.persistMu.Lock()
+	err := s.mutateSnapshotLocked(ctx, func() error {
+		meta, err := s.metadata.Metadata(ctx, []string{topic})
+		if err != nil {
+			return err
+		}
+		if len(meta.Topics) == 0 || meta.Topics[0].ErrorCode != 0 {
+			return ErrUnknownTopic
+		}
+		current := int32(len(meta.Topics[0].Partitions))
+		if partitionCount <= current {
+			return ErrInvalidTopic
+		}
+		if err := s.metadata.CreatePartitions(ctx, topic, partitionCount); err != nil {
+			return err
+		}
+		updated, err := s.metadata.Metadata(ctx, []string{topic})
+		if err != nil {
+			return err
+		}
+		if len(updated.Topics) == 0 || updated.Topics[0].ErrorCode != 0 {
+			return ErrUnknownTopic
+		}
+		newPartitions = updated.Topics[0].Partitions[current:partitionCount]
+		if int32(len(newPartitions)) != partitionCount-current {
+			return fmt.Errorf("metadata: expected %d new partitions, got %d", partitionCount-current, len(newPartitions))
+		}
+		return nil
+	})
+	s.persistMu.Unlock()
 	if err != nil {
-		return err
-	}
-	if len(meta.Topics) == 0 || meta.Topics[0].ErrorCode != 0 {
-		return ErrUnknownTopic
-	}
-	current := int32(len(meta.Topics[0].Partitions))
-	if partitionCount <= current {
-		return ErrInvalidTopic
-	}
-	if err := s.metadata.CreatePartitions(ctx, topic, partitionCount); err != nil {
-		return err
-	}
-	// Read new partition metadata before persisting. The snapshot watcher can
-	// refresh in-memory state from etcd while persistSnapshot runs, so a later
-	// Metadata call may see a stale partition count and panic on index access.
-	updated, err := s.metadata.Metadata(ctx, []string{topic})
-	if err != nil {
-		return err
-	}
-	if len(updated.Topics) == 0 || updated.Topics[0].ErrorCode != 0 {
-		return ErrUnknownTopic
-	}
-	newPartitions := updated.Topics[0].Partitions[current:partitionCount]
-	if int32(len(newPartitions)) != partitionCount-current {
-		return fmt.Errorf("metadata: expected %d new partitions, got %d", partitionCount-current, len(newPartitions))
-	}
-	if err := s.persistSnapshot(ctx); err != nil {
 		return err
 	}
 	for _, part := range newPartitions {
@@ -431,11 +436,13 @@ func (s *EtcdStore) CreateTopic(ctx context.Context, spec TopicSpec) (*protocol.
 	s.persistMu.Lock()
 	defer s.persistMu.Unlock()
 
-	topic, err := s.metadata.CreateTopic(ctx, spec)
+	var topic *protocol.MetadataTopic
+	err := s.mutateSnapshotLocked(ctx, func() error {
+		var err error
+		topic, err = s.metadata.CreateTopic(ctx, spec)
+		return err
+	})
 	if err != nil {
-		return nil, err
-	}
-	if err := s.persistSnapshotLocked(ctx); err != nil {
 		return nil, err
 	}
 	return topic, nil
@@ -466,32 +473,31 @@ func (s *EtcdStore) DeleteTopic(ctx context.Context, name string) error {
 	s.persistMu.Lock()
 	defer s.persistMu.Unlock()
 
-	metaCtx, cancel := context.WithTimeout(ctx, 3*time.Second)
-	defer cancel()
-	state, err := s.metadata.Metadata(metaCtx, []string{name})
-	if err != nil {
-		return err
-	}
-	var found bool
-	for _, topic := range state.Topics {
-		if *topic.Topic == name {
-			found = true
-			break
+	return s.mutateSnapshotLocked(ctx, func() error {
+		metaCtx, cancel := context.WithTimeout(ctx, 3*time.Second)
+		defer cancel()
+		state, err := s.metadata.Metadata(metaCtx, []string{name})
+		if err != nil {
+			return err
 		}
-	}
-	if !found {
-		return ErrUnknownTopic
-	}
-	if err := s.metadata.DeleteTopic(ctx, name); err != nil {
-		return err
-	}
-	if err := s.deleteTopicOffsets(ctx, name); err != nil {
-		return err
-	}
-	if err := s.deleteConsumerOffsets(ctx, name); err != nil {
-		return err
-	}
-	return s.persistSnapshotLocked(ctx)
+		var found bool
+		for _, topic := range state.Topics {
+			if *topic.Topic == name {
+				found = true
+				break
+			}
+		}
+		if !found {
+			return ErrUnknownTopic
+		}
+		if err := s.metadata.DeleteTopic(ctx, name); err != nil {
+			return err
+		}
+		if err := s.deleteTopicOffsets(ctx, name); err != nil {
+			return err
+		}
+		return s.deleteConsumerOffsets(ctx, name)
+	})
 }
 
 func (s *EtcdStore) startWatchers() {
@@ -528,50 +534,88 @@ func (s *EtcdStore) watchSnapshot(ctx context.Context) {
 func (s *EtcdStore) refreshSnapshot(ctx context.Context) error {
 	s.persistMu.Lock()
 	defer s.persistMu.Unlock()
+	_, err := s.loadSnapshotLocked(ctx)
+	return err
+}
 
+// loadSnapshotLocked replaces the in-memory metadata with the snapshot stored
+// in etcd and returns the mod revision of the snapshot key. When the key does
+// not exist yet the in-memory metadata is left alone and 0 is returned.
+// Caller holds persistMu.
+func (s *EtcdStore) loadSnapshotLocked(ctx context.Context) (int64, error) {
 	ctx, cancel := context.WithTimeout(ctx, 5*time.Second)
 	defer cancel()
 	resp, err := s.client.Get(ctx, snapshotKey())
 	if err != nil {
 		s.recordEtcdResult(err)
-		return err
+		return 0, err
 	}
 	s.recordEtcdResult(nil)
 	if len(resp.Kvs) == 0 {
-		return nil
+		return 0, nil
 	}
 	var snapshot ClusterMetadata
 	if err := json.Unmarshal(resp.Kvs[0].Value, &snapshot); err != nil {
-		return err
+		return 0, err
 	}
 	s.metadata.Update(snapshot)
-	return nil
+	return resp.Kvs[0].ModRevision, nil
 }
 
 func snapshotKey() string {
 	return "/kafscale/metadata/snapshot"
 }
 
-func (s *EtcdStore) persistSnapshot(ctx context.Context) error {
-	s.persistMu.Lock()
-	defer s.persistMu.Unlock()
-	return s.persistSnapshotLocked(ctx)
-}
+// snapshotWriteAttempts bounds how often a topic mutation is re-applied when
+// other writers keep changing the shared snapshot underneath it.
+const snapshotWriteAttempts = 8
 
-func (s *EtcdStore) persistSnapshotLocked(ctx context.Context) error {
-	state, err := s.metadata.Metadata(context.Background(), nil)
-	if err != nil {
+// mutateSnapshotLocked applies a topic mutation to the metadata snapshot that
+// all brokers and the operator share. The snapshot is one etcd value holding
+// every topic, so writing this broker's in-memory copy back unconditionally
+// would drop whatever another writer changed since the copy was last
+// refreshed. Instead the current snapshot is loaded, apply() runs against it,
+// and the result is committed only if the key is still at the revision that
+// was read; on a conflict the whole cycle is repeated on the newer snapshot.
+// Errors returned by apply() are passed through unchanged. Caller holds
+// persistMu.
+func (s *EtcdStore) mutateSnapshotLocked(ctx context.Context, apply func() error) error {
+	for attempt := 0; attempt < snapshotWriteAttempts; attempt++ {
+		rev, err := s.loadSnapshotLocked(ctx)
+		if err != nil {
+			return err
+		}
+		if err := apply(); err != nil {
+			return err
+		}
+		state, err := s.metadata.Metadata(context.Background(), nil)
+		if err != nil {
+			return err
+		}
+		payload, err := json.Marshal(state)
+		if err != nil {
+			return err
+		}
+		unchanged := clientv3.Compare(clientv3.Version(snapshotKey()), "=", 0)
+		if rev != 0 {
+			unchanged = clientv3.Compare(clientv3.ModRevision(snapshotKey()), "=", rev)
+		}
+		putCtx, cancel := context.WithTimeout(ctx, 5*time.Second)
+		resp, err := s.client.Txn(putCtx).If(unchanged).Then(clientv3.OpPut(snapshotKey(), string(payload))).Commit()
+		cancel()
+		s.recordEtcdResult(err)
+		if err != nil {
+			return err
+		}
+		if resp.Succeeded {
+			return nil
+		}
+	}
+	// Drop the change that could not be written before reporting the failure.
+	if _, err := s.loadSnapshotLocked(ctx); err != nil {
 		return err
 	}
-	payload, err := json.Marshal(state)
-	if err != nil {
-		return err
-	}
-	putCtx, cancel := context.WithTimeout(ctx, 5*time.Second)
-	defer cancel()
-	_, err = s.client.Put(putCtx, snapshotKey(), string(payload))
-	s.recordEtcdResult(err)
-	return err
+	return fmt.Errorf("metadata: snapshot changed concurrently, gave up after %d attempts", snapshotWriteAttempts)
 }
 
 func (s *EtcdStore) deleteTopicOffsets(ctx context.Context, topic string) error {
